@@ -152,6 +152,85 @@ define flow
 
 V1_GENERAL_CO = ""
 
+# stored-then-quoted: predefined messages that quote a context variable which holds LLM-produced text
+#   $last_bot_message     the previous (possibly LLM-written) reply          -> needs a later turn
+#   $name                 a value the LLM produced at the generate_value call (`$name = ...`)
+#   $answer               the result of an action that returns what the LLM said
+# in the `$var` shorthand and in the `{{ var }}` form, plus the `bot $var` step.
+QUOTE_PREFIX = "Sure, I said: "
+QUOTE2_PREFIX, QUOTE2_SUFFIX = "Again: ", " (end)"
+V1_QUOTE_CO = '''
+define user express greeting
+  "hello"
+
+define user ask to repeat
+  "can you repeat that"
+
+define user ask to repeat again
+  "once more"
+
+define user introduce self
+  "my name is John"
+
+define user ask recap
+  "recap"
+
+define user ask raw name
+  "say my name"
+
+define user ask lookup
+  "look it up"
+
+define bot express greeting
+  "Hello, there!"
+
+define bot repeat last message
+  "Sure, I said: $last_bot_message"
+
+define bot repeat last message again
+  "Again: {{ last_bot_message }} (end)"
+
+define bot greet by name
+  "Nice to meet you, $name!"
+
+define bot recap
+  "You are $name; I said {{ last_bot_message }}."
+
+define bot report lookup
+  "Lookup says: $answer"
+
+define flow
+  user express greeting
+  bot express greeting
+
+define flow
+  user ask to repeat
+  bot repeat last message
+
+define flow
+  user ask to repeat again
+  bot repeat last message again
+
+define flow
+  user introduce self
+  $name = ...
+  bot greet by name
+
+define flow
+  user ask recap
+  bot recap
+
+define flow
+  user ask raw name
+  $name = ...
+  bot $name
+
+define flow
+  user ask lookup
+  $answer = execute llm_lookup
+  bot report lookup
+'''
+
 V2_INTENT_CO = '''
 import core
 import llm
@@ -213,6 +292,24 @@ flow user expressed greeting
   user said "hi"
 ''' % SECRET
 
+# 2.x stored-then-quoted: a generated value uttered directly (`bot say $v`), through a copy, and (known finding) interpolated
+V2_QUOTE_CO = '''
+import core
+import llm
+
+flow main
+  global $secret
+  $secret = "%s"
+  match UtteranceUserActionFinished()
+  $v = ..."Extract the topic the user talks about"
+  bot say $v
+  match UtteranceUserActionFinished()
+  $w = $v
+  bot say $w
+  match UtteranceUserActionFinished()
+  bot say "again: {$v}"
+''' % SECRET
+
 V2_YAML = 'colang_version: "2.x"\n' + MODELS
 
 
@@ -228,9 +325,11 @@ def v1_config(mode, model="gpt-3.5-turbo-instruct"):
     elif mode == "passthrough":
         co = V1_GENERAL_CO
         extra = "passthrough: True\n"
+    elif mode in ("dialog_q", "single_call_q"):
+        co = V1_QUOTE_CO
     with contextlib.redirect_stdout(io.StringIO()):
         cfg = RailsConfig.from_content(co, extra + MODELS % model)
-    if mode == "single_call":
+    if mode in ("single_call", "single_call_q"):
         cfg.rails.dialog.single_call.enabled = True
     return cfg
 
@@ -238,13 +337,20 @@ def v1_config(mode, model="gpt-3.5-turbo-instruct"):
 def v2_config(mode, model="gpt-3.5-turbo-instruct"):
     from nemoguardrails import RailsConfig
 
-    co = {"v2_intent": V2_INTENT_CO, "v2_flowgen": V2_INTENT_CO, "v2_value": V2_VALUE_CO, "v2_utter": V2_UTTER_CO}[mode]
+    co = {"v2_intent": V2_INTENT_CO, "v2_flowgen": V2_INTENT_CO, "v2_value": V2_VALUE_CO, "v2_utter": V2_UTTER_CO, "v2_quote": V2_QUOTE_CO}[mode]
     with contextlib.redirect_stdout(io.StringIO()):
         return RailsConfig.from_content(co, V2_YAML % model)
 
 
-V1_MODES = ["dialog", "single_call", "multi_step", "general", "passthrough"]
-V2_MODES = ["v2_intent", "v2_flowgen", "v2_value", "v2_utter"]
+V1_MODES = ["dialog", "single_call", "multi_step", "general", "passthrough", "dialog_q", "single_call_q"]
+V2_MODES = ["v2_intent", "v2_flowgen", "v2_value", "v2_utter", "v2_quote"]
+
+
+async def llm_lookup(llm):
+    """an application action whose result is what the LLM said (`$answer = execute llm_lookup`)"""
+    from nemoguardrails.actions.llm.utils import llm_call
+
+    return await llm_call(llm, "lookup")
 
 
 _APP_CACHE = {}
@@ -265,6 +371,8 @@ def make_app(mode, responses, fallback, model="gpt-3.5-turbo-instruct", fresh=Fa
             app = LLMRails(cfg, llm=llm)
         if mode.startswith("v2"):
             app.runtime.disable_async_execution = True
+        if mode in ("dialog_q", "single_call_q"):
+            app.register_action(llm_lookup, "llm_lookup")
         pristine = dict(app.runtime.flow_configs) if not mode.startswith("v2") else None
         if fresh:
             return app, llm
